@@ -701,9 +701,10 @@ func TestDriverErc20(t *testing.T) {
 	rng := NewRng(seed)
 	side := NewSidecar("erc20", seed,
 		"case = one history (<= 40 steps quick / 300 thorough) on a fresh chain with two ERC-20 precompiles (native denom, utwo): transfer/transferFrom/approve/burn/burnFrom/views/malformed calldata "+
-			"by 3 EOAs, a vesting account, strict and lenient forwarder contracts and fake senders (zero address, module accounts), interleaved with x/bank MsgSend; "+
+			"by 3 EOAs, a vesting account, strict and lenient forwarder contracts and fake senders (zero address, module accounts), interleaved with x/bank MsgSend and with multi-call transactions "+
+			"(call trees on two interpreter hosts: several ERC-20 calls per transaction from nested frames that RETURN / REVERT / hit INVALID / run out of gas, one favourite method repeated); "+
 			"amounts from {0,1,bal,bal+-1,allow,allow+-1,spendable,spendable+1,2^256-1,random}; keeper mode = EvmKeeper.ApplyMessage(commit), tx mode = relayer->forwarder transactions in blocks (1-3 per block); "+
-			"after every step (block) outcome, logs and all balances/supplies/allowances of a 12-address universe x 3 denoms are compared with the model; "+
+			"after every step (block) outcome, logs and all balances/supplies/allowances of a 14-address universe x 3 denoms are compared with the model; "+
 			"non-trivial = history with >= 1 successful allowance spend by spender != owner and >= 1 failing state-changing call and >= 1 successful burn or transfer")
 	cases := NewCases(dir, "From Evm Require Import Erc20 CorrErc20.", "erc20_mismatches")
 
